@@ -13,12 +13,15 @@ ASSUMPTIONS = [
     "second run: the same histories extended with `hold s` (a request to s that stays inside its handler, sent on the SAME connection as the probes) "
     "and `release`; a held request must have been dispatched iff its service was registered when it arrived, and probes after a removal are refused "
     "although a request of the removed service is still running",
+    "third run: histories in which two registry changes (add / remove of services under different names, or the same change twice) are made at the same "
+    "time by two threads leaving a spin barrier together, on a server that also holds 64 bystander services; the outcome must be that of either order "
+    "(both orders agree for the pairs taken), and a bystander is probed after every such step",
     "handler keys are assumed collision free (DefaultHasher of the URI) on the names in use",
 ]
 
 
-def _one(ctx, binary, maxlen, inflight, name):
-    cfg = vlib.cfg_text(constants=dict(CONSTS, MaxLen=maxlen, EmitHist=True, WithInFlight=inflight),
+def _one(ctx, binary, maxlen, inflight, name, par=False):
+    cfg = vlib.cfg_text(constants=dict(CONSTS, MaxLen=maxlen, EmitHist=True, WithInFlight=inflight, WithPar=par),
                         invariants=["C13_ServedIffRegistered"], properties=["C13_HeldWasRegistered"],
                         constraints=["Emit"]).replace("CONSTANTS\n", "CONSTANTS\n  Handles <- HandlesDef\n  NameOf <- NameOfDef\n")
     out = ctx.path("replay_%s.json" % name)
@@ -28,12 +31,12 @@ def _one(ctx, binary, maxlen, inflight, name):
     if gen["consumer_exit"] != 0 or gen["distinct"] is None or (gen["errors"] and not gen["violated"]):
         raise vlib.ToolError("generation/replay failed:\n" + text[-2000:])
     rep = vlib.load_json(out)
-    if not inflight and rep["evaluations"] != STEPS ** maxlen:
+    if not inflight and not par and rep["evaluations"] != STEPS ** maxlen:
         raise vlib.ToolError("replayed %d histories, expected %d" % (rep["evaluations"], STEPS ** maxlen))
     if rep["evaluations"] == 0 or rep["served_probes"] == 0 or rep["refused_probes"] == 0:
         raise vlib.ToolError("vacuous: %s" % {k: rep[k] for k in ("evaluations", "served_probes", "refused_probes")})
     ctx.log("RpcRegistry (%s): %d states; %d histories replayed on a real server, %d probes, %d violations" % (
-        "with requests in flight" if inflight else "sequential", gen["distinct"], rep["evaluations"], rep["probes"], rep["violation_count"]))
+        "with requests in flight" if inflight else "with concurrent registry changes" if par else "sequential", gen["distinct"], rep["evaluations"], rep["probes"], rep["violation_count"]))
     if gen["violated"] and not rep["violation_count"]:
         raise vlib.ToolError("TLC reports %s on the faithful layer but the real server shows no violation" % gen["violated"])
     for v in rep["violations"][:3]:
@@ -46,8 +49,10 @@ def run(ctx):
     maxlen = 4 if ctx.tier == "quick" else 5
     g1, r1 = _one(ctx, binary, maxlen, False, "seq")
     g2, r2 = _one(ctx, binary, 4 if ctx.tier == "quick" else 5, True, "inflight")
-    cov = {"states": g1["distinct"] + g2["distinct"], "transitions": g1["generated"] + g2["generated"],
-           "traces_validated_against_impl": r1["evaluations"] + r2["evaluations"],
+    g3, r3 = _one(ctx, binary, 2 if ctx.tier == "quick" else 3, False, "par", par=True)
+    cov = {"states": g1["distinct"] + g2["distinct"] + g3["distinct"], "transitions": g1["generated"] + g2["generated"] + g3["generated"],
+           "traces_validated_against_impl": r1["evaluations"] + r2["evaluations"] + r3["evaluations"],
+           "histories_with_concurrent_registry_changes": r3["evaluations"],
            "samples": r1["samples"][:2] + r2["samples"][:3], "exhaustive": True,
            "probes": r1["probes"] + r2["probes"], "served_probes": r1["served_probes"] + r2["served_probes"],
            "refused_probes": r1["refused_probes"] + r2["refused_probes"],
